@@ -106,6 +106,13 @@ func (s *Sym) MakeFn(name string, args ...*RF) *RF {
 		if in := args[2].SingleAtom(); in != nil && in.Name == "ite" && in.Args[1].Equal(args[1]) {
 			return s.MakeFn("ite", s.Or(args[0], in.Args[0]), args[1], in.Args[2])
 		}
+		// ite(c1, A, ite(c2, B, A)) = ite(!c1 && c2, B, A) ; ite(c1, ite(c2, A, B), A) = ite(c1 && !c2, B, A)
+		if in := args[2].SingleAtom(); in != nil && in.Name == "ite" && in.Args[2].Equal(args[1]) {
+			return s.MakeFn("ite", s.And(s.Not(args[0]), in.Args[0]), in.Args[1], args[1])
+		}
+		if in := args[1].SingleAtom(); in != nil && in.Name == "ite" && in.Args[1].Equal(args[2]) {
+			return s.MakeFn("ite", s.And(args[0], s.Not(in.Args[0])), in.Args[2], args[2])
+		}
 		// ite(!c,a,b) = ite(c,b,a)
 		if c := args[0].SingleAtom(); c != nil && c.Name == "not" {
 			return s.MakeFn("ite", c.Args[0], args[2], args[1])
